@@ -289,10 +289,52 @@ fn clone_check(ty: &str, n: usize) -> i128 {
     }
 }
 
+// owned (consuming) vs borrowed forms of the operators that have no size guard: results must be bit-identical and the
+// borrowed operands untouched.  Scalars include values whose reciprocal is inexact (a reciprocal-multiply rewrite shows).
+fn own_check(ty: &str, n: usize) -> i128 {
+    let scalars = [3.0f64, 10.0, 49.0, 0.1, -7.0, 2.0];
+    match ty {
+        "matrix" => { let a = matn(n, n + 1); let sa = bits_m(&a);
+            for s in scalars {
+                if bits_m(&(&a * s)) != bits_m(&(a.clone() * s)) { return 4; }
+                if bits_m(&(&a / s)) != bits_m(&(a.clone() / s)) { return 4; }
+                if bits_m(&(s * a.clone())) != bits_m(&(&a * s)) { return 4; }
+            }
+            if bits_m(&(-&a)) != bits_m(&(-(a.clone()))) { return 4; }
+            if bits_m(&a) != sa { return 3; } 0 }
+        "banded" => { let a = bandn(n + 1, 1.min(n), 1.min(n)); let sa = bits_b(&a);
+            for s in scalars {
+                if bits_b(&(&a * s)) != bits_b(&(a.clone() * s)) { return 4; }
+                if bits_b(&(&a / s)) != bits_b(&(a.clone() / s)) { return 4; }
+            }
+            if bits_b(&(-&a)) != bits_b(&(-(a.clone()))) { return 4; }
+            if bits_b(&a) != sa { return 3; } 0 }
+        "polynomial" => { let p = polyn(n + 1); let q = polyn(n / 2 + 1); let (sp, sq) = (bits_p(&p), bits_p(&q));
+            if bits_p(&(&p + &q)) != bits_p(&(p.clone() + q.clone())) { return 4; }
+            if bits_p(&(&q + &p)) != bits_p(&(q.clone() + p.clone())) { return 4; }
+            if bits_p(&(&p - &q)) != bits_p(&(p.clone() - q.clone())) { return 4; }
+            if bits_p(&(&q - &p)) != bits_p(&(q.clone() - p.clone())) { return 4; }
+            if bits_p(&(&p * &q)) != bits_p(&(p.clone() * q.clone())) { return 4; }
+            if bits_p(&(-&p)) != bits_p(&(-(p.clone()))) { return 4; }
+            for s in scalars { if bits_p(&(&p * s)) != bits_p(&(p.clone() * s)) { return 4; } }
+            if bits_p(&p) != sp || bits_p(&q) != sq { return 3; } 0 }
+        "vector" => { let a = vecn(n); let b = vecn(n); let (sa, sb) = (bits_v(&a), bits_v(&b));
+            if bits_v(&(&a + &b)) != bits_v(&(a.clone() + b.clone())) { return 4; }
+            if bits_v(&(&a - &b)) != bits_v(&(a.clone() - b.clone())) { return 4; }
+            if bits_v(&(&a + &b)) != bits_v(&(a.clone() + &b)) { return 4; }
+            if bits_v(&a) != sa || bits_v(&b) != sb { return 3; } 0 }
+        _ => panic!("harness: unknown own type {}", ty),
+    }
+}
+
 pub fn run_kind(kind: &str, a: &mut Args, out: &mut Out) {
     let key = kind.strip_prefix("guard.").unwrap_or_else(|| panic!("harness: bad guard kind {}", kind));
     if let Some(ty) = key.strip_prefix("clone_") {
         while a.more() { let n = a.usize(); out.int(clone_check(ty, n)); }
+        return;
+    }
+    if let Some(ty) = key.strip_prefix("own_") {
+        while a.more() { let n = a.usize(); out.int(own_check(ty, n)); }
         return;
     }
     let k = a.usize();
